@@ -27,6 +27,15 @@ func (t *ipTransport) VerifTxtRecords() map[string]string {
 	return t.config.txtRecords()
 }
 
+// VerifResponderTxt returns the TXT records of the service as the mDNS responder holds
+// them (what it announces and answers queries with); nil until the service is added.
+func (t *ipTransport) VerifResponderTxt() map[string]string {
+	if t.handle == nil {
+		return nil
+	}
+	return t.handle.Service().Text
+}
+
 // VerifContext returns the transport's hap context.
 func (t *ipTransport) VerifContext() hap.Context {
 	return t.context
